@@ -526,15 +526,15 @@ Section Translator.
 
   Definition sdefs := list (sname * bexp).
 
-  (* `if len(get_args(t)) > 0 and isinstance(v, list): v = _regroup_bits(_flatten_bits(v), t)`:
+  (* `if len(get_args(t)) > 0: v = _regroup_bits(_flatten_bits(v), t)`:
      a tuple-typed value is nested as its type says (when the number of bits is the type's) *)
   Definition regroup_value (r : tres) : tres :=
-    match fst r, snd r with
-    | TTuple (_ :: _), Nd l =>
-        let bits := flat (Nd l) in
+    match fst r with
+    | TTuple (_ :: _) =>
+        let bits := flat (snd r) in
         if Nat.eqb (ty_size (fst r)) (length bits) then (fst r, regroup (fst r) bits)
         else (fst r, of_list bits)
-    | _, _ => r
+    | _ => r
     end.
 
   Definition trans_assign (G : env) (x : ident) (e : pexp) : option (sdefs * env) :=
